@@ -16,6 +16,18 @@ Monitor : from the property statement: load(dump(obj)) has the same class and eq
           client and server configurations.  Locally registered classes (module `__main__`) are resolvable through
           Config.classes only (jcenv.Env.install does not make them attributes of the running `__main__`), and the name
           dump emits for them must be dot-free.
+Classes : every flavour of enumeration (Enum, Flag, IntEnum, StrEnum, IntFlag; aliases, auto() values, unhashable values, flag
+          combinations, the empty flag, named combinations) and every notation `str` of a Decimal can produce (infinities, quiet
+          and signalling NaNs with payloads, negative zero, exponents), at the top level and nested in beans and containers;
+          members of enumerations derived from a primitive type are "transmitted as that primitive" (judged by the monitor only,
+          the model has no such class).  The class table in force is built by a *program* on a real LocalClasses object
+          (jcenv.registry_program: stale definitions and other classes registered under the name first, re-registrations,
+          removals, aliases, clear(), explicit / empty / omitted names, direct stores), compared with `LocalClasses.run`
+          (component `jcregistry`), handed to jsonclass.load as `classes=` and installed in Config.classes of both peers.
+          Run-time ties that no extractor is involved in: `utils.ITERABLE_TYPES` / `PRIMITIVE_TYPES` / `jsonclass.SUPPORTED_TYPES`
+          of the code under test against the model's tables (`jctables`); `utils.is_enum` / `utils.is_decimal` /
+          `isinstance(·, PRIMITIVE_TYPES)` on instances of every class of every environment against the kind the model is told;
+          `str(Decimal(s)) == s` against `canonDecimal` on a battery of literals (`jccanondec`).
 Domain  : the remote-call clause is checked for values whose enum members have plain JSON values and whose objects with
           a serialisation method have plain JSON constructor arguments (jcenv.plain_json_args): dump emits an enum
           value and what a serialisation method returns as they are, so JSON turns a tuple into a list (not a value of
@@ -23,6 +35,8 @@ Domain  : the remote-call clause is checked for values whose enum members have p
           round trip, and their RPC outcome is recorded in the histogram (`rpc-outside-domain/...`), not judged.
 """
 import copy
+import decimal
+import enum
 import json
 
 import gen
@@ -37,6 +51,7 @@ REQUIRED_THEOREMS = [
     "C07_roundtrip", "C07_local_classes", "C07_local_resolves", "C07_rpc_param", "C07_rpc_result",
     "C07_gen_loadCalls", "C07_gen_slotsFinder", "C07_gen_typeTables", "C07_gen_useJsonclassGates",
     "C07_gen_configCallSites",
+    "C07_registry_lookup", "C07_registry_last_registration_wins", "C07_registered_roundtrip",
 ]
 
 
@@ -97,7 +112,10 @@ def describe(v, env, depth=0):
     if h is None:
         return "p"
     s = env.by_id[h[0]]
-    shape = "%s/%s/d%d/%s" % (s["kind"], "slots" if s["slots"] is not None else "dict", len(s["bases"]),
+    kind = s["kind"] if s["kind"] != "enum" else "enum:%s:%s" % (s.get("flavour", "Enum"), jcenv.enum_member_class(v))
+    if s["kind"] == "decimal":
+        kind = "decimal:" + jcenv.decimal_class(v)
+    shape = "%s/%s/d%d/%s" % (kind, "slots" if s["slots"] is not None else "dict", len(s["bases"]),
                               "local" if s["module"] == "__main__" else "mod")
     if s["kind"] in ("bean", "serial") and depth < 2:
         inner = sorted(set(describe(x, env, depth + 1) for _n, x in env.stored(v)))
@@ -105,30 +123,146 @@ def describe(v, env, depth=0):
     return shape
 
 
-def class_table(env, rng, mode):
-    """Config.classes content: name -> class.  mode 'locals': every __main__ class; 'all': every user class."""
-    tab = {}
-    for s in env.specs:
-        if s["kind"] == "decimal":
+def registry_targets(env, mode):
+    """The classes to register in Config.classes.  mode 'locals': every __main__ class; 'all': every user class."""
+    return [s["id"] for s in env.specs if s["kind"] != "decimal" and (s["module"] == "__main__" or mode == "all")]
+
+
+def walk(v, env, depth=0):
+    """Every node of the object graph (containers, stored attributes of bean / serial instances)."""
+    yield v
+    if depth > 8:
+        return
+    if isinstance(v, dict):
+        kids = list(v.values())
+    elif isinstance(v, (list, tuple, set, frozenset)):
+        kids = list(v)
+    elif type(v) in env.ids and env.by_id[env.ids[type(v)]]["kind"] in ("bean", "serial"):
+        kids = [x for _n, x in env.stored(v)]
+    else:
+        kids = []
+    for x in kids:
+        for y in walk(x, env, depth + 1):
+            yield y
+
+
+def has_prim_member(v, env):
+    """Does the value hold a member of an enumeration derived from a primitive type (outside the model's class universe)?"""
+    return any(env.prim_base(n) is not None for n in walk(v, env))
+
+
+def note_specials(ctx, v, env):
+    """Distribution of the scalar-like classes the translator singles out."""
+    for n in walk(v, env):
+        if type(n) is decimal.Decimal:
+            ctx.hist["decimal/" + jcenv.decimal_class(n)] += 1
+        elif isinstance(n, enum.Enum) and type(n) in env.ids:
+            ctx.hist["enum/%s/%s" % (env.by_id[env.ids[type(n)]].get("flavour", "Enum"), jcenv.enum_member_class(n))] += 1
+
+
+# ---- run-time ties in which no extractor is involved ----------------------------------------------------------------------
+
+def real_type_tables():
+    """The type tables of the code under test, as sorted lists of type names (the order inside an isinstance tuple is
+    immaterial)."""
+    U = impl.jsonrpclib.utils
+
+    def names(ts):
+        return sorted(t.__name__ for t in ts)
+
+    return [names(U.ITERABLE_TYPES), names(U.PRIMITIVE_TYPES), names(JC.SUPPORTED_TYPES)]
+
+
+def check_type_tables(ctx, model_line):
+    try:
+        model = [sorted(x) for x in pyval.from_tree(pyval.parse(model_line))]
+    except Exception:  # noqa: BLE001
+        model = model_line
+    real = real_type_tables()
+    U = impl.jsonrpclib.utils
+    single = [U.DictType.__name__, U.ListType.__name__, U.TupleType.__name__, sorted(t.__name__ for t in U.STRING_TYPES),
+              sorted(t.__name__ for t in U.NUMERIC_TYPES), sorted(t.__name__ for t in U.VALUE_TYPES)]
+    # what the model's `load` / `dump` match on: dict, list, tuple; str+bytes, int+float, bool+None
+    single_model = ["dict", "list", "tuple", ["bytes", "str"], ["float", "int"], ["NoneType", "bool"]]
+    if model != real or single != single_model:
+        ctx.disagree("jctables: utils.ITERABLE_TYPES / PRIMITIVE_TYPES / jsonclass.SUPPORTED_TYPES; DictType, ListType, TupleType, "
+                     "STRING_TYPES, NUMERIC_TYPES, VALUE_TYPES", repr([real, single]), repr([model, single_model]),
+                     component="type-tables")
+    ctx.traces_validated += 1
+    ctx.hist["tie/type-tables"] += 1
+
+
+DECIMAL_LITERALS = jcenv.DECIMALS + [
+    "1.00E+2", "10E+1", "0.0000001", "0.0000000", "0.000000", "+1", "1e5", "1E5", "1E+05", "1E+5", "Inf", "infinity", "nan",
+    "NaN0", "NaN007", "sNaN0", "sNaN12", " 1", "1 ", "1_0", "\u0661", "1.", ".5", "-", "", "1E+0", "1E-6", "1E-7", "1.0E-7",
+    "1.0E-6", "0E-6", "0E-7", "00", "01.5", "1.5E+1", "1.5E+2", "1.50E+2", "1.50E+3", "12E+3", "0.1E+3", "--1", "NaN-1", "1E+1",
+    "0E+0", "0E+1", "0E-1", "0.0", "-0.0", "0.10", "100.00", "1E+", "E+1", "1.E+5", "1.5E+", "1.5E-07", "Infinity1", "-Inf",
+    "NaNx", "sNaN-", "1.5E-7x", "1E+10000", "9E-7", "0.00001", "0.000001", "0.0000012", "0.00000120", "1.20E-6",
+]
+
+
+def decimal_literals(rng, n):
+    """Literals near the boundary between what `str` of a Decimal writes and what it does not."""
+    out = list(DECIMAL_LITERALS)
+    for _ in range(n):
+        digits = "".join(rng.choice("0123456789") for _ in range(rng.randint(1, 6)))
+        exp = rng.choice([0, 0, -1, -2, -5, -6, -7, -8, -9, 1, 2, 5, 30, -30]) + rng.randint(-2, 2)
+        try:
+            d = decimal.Decimal((rng.randint(0, 1), tuple(int(c) for c in digits), exp))
+        except decimal.InvalidOperation:
             continue
-        if s["module"] == "__main__" or mode == "all":
-            tab[s["name"]] = env.cls[s["id"]]
-    return tab
+        out.append(str(d))  # canonical by construction
+        # and a near miss: another spelling of the same number
+        out.append(rng.choice(["%sE%+d" % (digits, exp), "%s.0E%+d" % (digits, exp), "0" + str(d), str(d).replace("E+", "E"),
+                               str(d).lower(), str(d) + "0" if "." in str(d) and "E" not in str(d) else str(d) + "E+0"]))
+    return out
+
+
+def python_canonical(s):
+    try:
+        return str(decimal.Decimal(s)) == s
+    except (decimal.InvalidOperation, ValueError, TypeError):
+        return False
+
+
+def check_predicates(ctx, env, rng):
+    """utils.is_enum / utils.is_decimal / isinstance(·, PRIMITIVE_TYPES) of the code under test on instances of every class
+    of the environment, against the kind the model is told for that class (jcenv.Env.lean_classes)."""
+    U = impl.jsonrpclib.utils
+    vg = jcenv.ValueGen(rng, gen, env)
+    for s in env.specs:
+        c = env.cls[s["id"]]
+        if s["kind"] == "decimal":
+            samples = [decimal.Decimal(x) for x in jcenv.DECIMALS]
+        elif s["kind"] == "enum":
+            samples = [c[n] for n, _v in s["members"]] + [vg.enum_member(s["id"]) for _ in range(4)]
+        elif s["kind"] in ("bean", "serial"):
+            samples = [vg.instance(0, s["id"])]
+        else:
+            continue
+        want = (s["kind"] == "enum", s["kind"] == "decimal", s.get("flavour") in jcenv.PRIM_FLAVOURS)
+        for x in samples:
+            got = (bool(U.is_enum(x)), bool(U.is_decimal(x)), isinstance(x, U.PRIMITIVE_TYPES))
+            if got != want:
+                ctx.disagree("utils.is_enum / utils.is_decimal / isinstance(PRIMITIVE_TYPES) on %r (class %s, %s%s)"
+                             % (x, s["name"], s["kind"], ":" + s["flavour"] if s.get("flavour") else ""),
+                             repr(got), repr(want), component="predicates")
+            ctx.traces_validated += 1
+        ctx.hist["tie/predicates/%s" % (s["kind"] if s["kind"] != "enum" else "enum:" + s.get("flavour", "Enum"))] += len(samples)
 
 
 RPC_MODES = ["positional", "keyword", "notify", "multicall"]
 
 
-def rpc_roundtrip(env, table, version, v, mode="positional", server_version=None):
+def rpc_roundtrip(env, ops, version, v, mode="positional", server_version=None):
     """Sends v to an echo method of a real dispatcher through a real ServerProxy (separate client and server
-    configurations, each with the class table) and gets it back.
-    -> ((kind, exception | None), received parameters [..], results [..])"""
+    configurations, each with the class table built by the registry program `ops` on its own Config.classes) and gets it
+    back.  -> ((kind, exception | None), received parameters [..], results [..])"""
     J = impl.jsonrpclib.jsonrpc
     cfg_c = impl.jsonrpclib.config.Config(version=version)
     cfg_s = impl.jsonrpclib.config.Config(version=server_version or version)
-    for n, c in table.items():
-        cfg_c.classes.add(c, n)
-        cfg_s.classes.add(c, n)
+    jcenv.registry_apply(env, cfg_c.classes, ops)
+    jcenv.registry_apply(env, cfg_s.classes, ops)
     disp = SimpleJSONRPCDispatcher(config=cfg_s)
     received = []
 
@@ -214,6 +348,12 @@ def run(ctx):
     lines = []
     expect = []
     rpc_runs = 0
+    # run-time ties (no extractor involved): the type tables, and the fixed points of str(Decimal(.))
+    lines.append("jctables")
+    expect.append(("tables", False, None))
+    for lit in decimal_literals(ctx.derive_rng("decimal-literals"), ctx.budget(150, 1500)):
+        lines.append("jccanondec " + pyval.enc(lit))
+        expect.append(("canondec", False, lit))
     for e in range(n_envs):
         tag = "e%d" % e
         custom = (e % 3 == 2)  # every third environment exercises ignore lists / handlers / configured names
@@ -221,7 +361,7 @@ def run(ctx):
         method = names[0] if ctx.rng.random() < 0.8 else "_serialize"
         specs = jcenv.gen_specs(ctx.rng, gen, tag, ignore_attr=names[1], method=method,
                                 with_ignore=0.5 if custom else 0.0,
-                                local_ratio=ctx.rng.choice([0.0, 0.35, 0.35, 1.0]))
+                                local_ratio=ctx.rng.choice([0.0, 0.35, 0.35, 1.0]), flavours=True)
         env = jcenv.Env(specs).install()
         try:
             _run_env(ctx, env, custom, names, per_env, lines, expect)
@@ -233,7 +373,17 @@ def run(ctx):
         if "err Unmodelled" in mo:
             unmodelled += 1
             continue
-        if what == "dump":
+        if what == "tables":
+            check_type_tables(ctx, mo)
+        elif what == "canondec":
+            real = python_canonical(exp)
+            if mo not in ("T", "F") or (mo == "T") != real:
+                ctx.disagree("jccanondec %r" % exp, "str(Decimal(s)) == s is %r" % real, mo, component="jccanondec")
+            ctx.hist["tie/decimal-literal/%s" % ("fixed-point" if real else "other")] += 1
+        elif what == "registry":
+            if pyval.canon(mo) != pyval.canon(exp) or mo.split() != exp.split():
+                ctx.disagree(ln[-700:], exp[:500], mo[:500], component="jcregistry")
+        elif what == "dump":
             cm = impl.canon_model_line(mo, keep_arg=())
             if loose_cmp:
                 cm, exp = loose(cm), loose(exp)
@@ -265,6 +415,14 @@ def run(ctx):
                            % ctx.extra.get("rpc_outside_domain", 0))
     ctx.assumptions.append("classes of module __main__ are resolvable through Config.classes only (the running __main__ does not "
                            "define them), as in a receiving process with its own __main__")
+    ctx.assumptions.append("scope decision: 'classes registered in the configuration's local class table' means registered by the "
+                           "program through LocalClasses.add / item assignment, the last registration under a name being the one in "
+                           "force (C07_registry_lookup); an object whose class was displaced from its name by a later registration of "
+                           "another class is outside the domain (%d generated cases, not judged)" % ctx.extra.get("registry_displaced", 0))
+    ctx.assumptions.append("members of enumerations derived from a primitive type (IntEnum, StrEnum, IntFlag) are outside the class "
+                           "universe of the model (the property excludes them: 'transmitted as that primitive'); values holding one "
+                           "(%d) are judged by the monitor alone: the member itself comes back from load(dump()), the plain int / str "
+                           "with its value from a remote call" % ctx.extra.get("prim_enum_monitor_only", 0))
 
 
 def _run_env(ctx, env, custom, names, per_env, lines, expect):
@@ -273,6 +431,8 @@ def _run_env(ctx, env, custom, names, per_env, lines, expect):
     lean_env = env.enc(env.lean_classes())
     has_local = any(s["module"] == "__main__" for s in env.specs)
     specs_text = jcenv.specs_enc(env.specs)
+    check_predicates(ctx, env, rng)
+    LocalClasses = impl.jsonrpclib.config.LocalClasses
     for i in range(per_env):
         vg = jcenv.ValueGen(rng, gen, env)
         top = rng.random()
@@ -283,8 +443,25 @@ def _run_env(ctx, env, custom, names, per_env, lines, expect):
         else:
             v = [vg.instance(2), {"k": vg.instance(1)}, (vg.instance(1),)]
         mode = "all" if rng.random() < 0.15 else "locals"
-        table = class_table(env, rng, mode)
+        # the class table in force: built by a program on a real LocalClasses object
+        targets = registry_targets(env, mode)
+        plain = rng.random() < 0.35
+        ops = jcenv.registry_program(rng, env, targets, plain)
+        table = jcenv.registry_apply(env, LocalClasses(), ops)
+        displaced = jcenv.registry_displaced(env, ops, targets)
+        ctx.hist["registry/%s" % ("plain" if plain else ("displaced" if displaced else "program"))] += 1
+        lines.append("jcregistry L0 " + pyval.enc(jcenv.registry_lean(env, ops)))
+        expect.append(("registry", False, pyval.enc(jcenv.registry_view(env, table))))
         in_domain = vg.in_domain and (has_obj(v, env))
+        if displaced:
+            # a later registration gave the name of a class to another class: objects of the displaced class are not
+            # "registered in the local class table" any more
+            in_domain = False
+            ctx.extra["registry_displaced"] = ctx.extra.get("registry_displaced", 0) + 1
+        prim = has_prim_member(v, env)
+        if prim:
+            ctx.extra["prim_enum_monitor_only"] = ctx.extra.get("prim_enum_monitor_only", 0) + 1
+        note_specials(ctx, v, env)
         handlers = []
         sm_arg = ia_arg = ig_arg = None
         cfg = impl.jsonrpclib.config.Config()
@@ -321,19 +498,20 @@ def _run_env(ctx, env, custom, names, per_env, lines, expect):
         vrepr = repr(v)[:300]
         k, d = impl.outcome(JC.dump, v, sm_arg, ia_arg, copy.deepcopy(ig_arg) if ig_arg is not None else None, cfg)
         case = {"env": [s["id"] + ":" + s["kind"] for s in env.specs],
-                "value_enc": vtext, "value": vrepr, "classes": sorted(table), "specs_enc": specs_text}
+                "value_enc": vtext, "value": vrepr, "classes": sorted(table), "specs_enc": specs_text, "registry": ops}
         if env.enc(v, canon=True) != before:
             ctx.violate(case, "dump modified its argument", key="dump-mutates")
         try:
             dexp = impl.canon_outcome(k, d, env.hook, keep_arg=())
         except pyval.Unencodable:
             continue
-        lines.append("jcdump %s %s %s %s" % (pyval.enc(jcenv.lean_cfg(cfg.serialize_method, cfg.ignore_attribute, handlers)),
-                                             lean_env, pyval.enc([sm_arg, ia_arg, ig_arg]), vtext))
-        # a raising handler and an unset slot in the same value: which one is met first depends on the iteration
-        # order of a Python set (the field names); only "raises" is compared then
-        multi_raise = any(h == 2 for _t, h in handlers)
-        expect.append(("dump", has_multiset(v, env), dexp if not (multi_raise and k == "err") else "err *"))
+        if not prim:
+            lines.append("jcdump %s %s %s %s" % (pyval.enc(jcenv.lean_cfg(cfg.serialize_method, cfg.ignore_attribute, handlers)),
+                                                 lean_env, pyval.enc([sm_arg, ia_arg, ig_arg]), vtext))
+            # a raising handler and an unset slot in the same value: which one is met first depends on the iteration
+            # order of a Python set (the field names); only "raises" is compared then
+            multi_raise = any(h == 2 for _t, h in handlers)
+            expect.append(("dump", has_multiset(v, env), dexp if not (multi_raise and k == "err") else "err *"))
         outcome = "dump:" + (type(d).__name__ if k == "err" else "ok")
         if k == "err":
             if in_domain:
@@ -345,10 +523,10 @@ def _run_env(ctx, env, custom, names, per_env, lines, expect):
                 dtext = None
             k2, r = impl.outcome(JC.load, copy.deepcopy(d), table)
             outcome = "load:" + (type(r).__name__ if k2 == "err" else "ok")
-            if dtext is not None:
+            if dtext is not None and not prim:
                 try:
                     lexp = impl.canon_outcome(k2, r, env.hook, keep_arg=())
-                    ctab = pyval.enc([[n, env.ids[c]] for n, c in table.items()])
+                    ctab = pyval.enc(jcenv.registry_view(env, table))
                     lines.append("jcload %s %s %s" % (ctab, world, dtext))
                     expect.append(("load", False, lexp))
                 except pyval.Unencodable:
@@ -375,7 +553,7 @@ def _run_env(ctx, env, custom, names, per_env, lines, expect):
                 for version in (1.0, 2.0):
                     for mode in ("positional", extra_mode):
                         sv = version if (i // 2) % 4 else (3.0 - version)  # now and then the server speaks the other version
-                        outcome3, received, results = rpc_roundtrip(env, table, version, v, mode, sv)
+                        outcome3, received, results = rpc_roundtrip(env, ops, version, v, mode, sv)
                         via = "rpc %.1f %s" % (version, mode)
                         m = rpc_verdict(env, v, outcome3, received, results, mode)
                         if not judged:
@@ -407,18 +585,26 @@ def replay(payload):
             if s["kind"] == "decimal":
                 return c(fd["str"])
             if s["kind"] == "enum":
-                return c[fd["name"]]
+                try:
+                    return c[fd["name"]]
+                except KeyError:
+                    return c(fd["value"])  # a combination of flags, the empty flag
             inst = c.__new__(c)
             for n, x in fields:
                 setattr(inst, n, x)
             return inst
 
         v = pyval.from_tree(pyval.parse(case["value_enc"]), mk)
-        table = dict((s["name"], env.cls[s["id"]]) for s in env.specs if s["name"] in (case.get("classes") or []))
+        ops = case.get("registry")
+        if ops is None:
+            ops = [["add", s["id"], None] for s in env.specs if s["name"] in (case.get("classes") or [])]
+        print("registry program:", ops)
+        table = jcenv.registry_apply(env, impl.jsonrpclib.config.LocalClasses(), ops)
+        print("Config.classes ->", jcenv.registry_view(env, table))
         via = case.get("via", "direct")
         if via.startswith("rpc"):
             mode = case.get("mode", "positional")
-            outcome3, received, results = rpc_roundtrip(env, table, case.get("version", 2.0), v, mode, case.get("server_version"))
+            outcome3, received, results = rpc_roundtrip(env, ops, case.get("version", 2.0), v, mode, case.get("server_version"))
             print("remote %s call ->" % mode, outcome3[0], repr(outcome3[1])[:300], "received", repr(received)[:300],
                   "results", repr(results)[:300])
             m = rpc_verdict(env, v, outcome3, received, results, mode)
